@@ -67,12 +67,12 @@ Proof. unfold upd. intros H. destruct (N.eqb_spec q p); congruence. Qed.
 Lemma resolve_nonlink : forall n f p q, resolve n f p = Some q -> islink f q = false.
 Proof.
   induction n as [|n IH]; intros f p q H; cbn in H; [discriminate|].
-  destruct (f p) as [[c g|g|t|]|] eqn:Hp; try (inversion H; subst; unfold islink; now rewrite Hp).
+  destruct (f p) as [[c g|g|t|ents]|] eqn:Hp; try (inversion H; subst; unfold islink; now rewrite Hp).
   eapply IH; eauto.
 Qed.
 
 Lemma resolve_fix n f q : islink f q = false -> resolve (S n) f q = Some q.
-Proof. unfold islink. cbn. destruct (f q) as [[c g|g|t|]|]; congruence. Qed.
+Proof. unfold islink. cbn. destruct (f q) as [[c g|g|t|ents]|]; congruence. Qed.
 
 Lemma read_path_realpath f p c0 : read_path f p = Some c0 -> read_path f (realpath f p) = Some c0.
 Proof.
@@ -657,3 +657,58 @@ Lemma errors_do_not_stop_repaired modf acts args answers f g :
   (forall e, In e (snd (expand f args)) -> rexit r = 1%N /\ In e (rerrors r)) /\
   (forall file, In (file, ExitOne) (rlog r) -> rexit r = 1%N).
 Proof. apply errors_do_not_stop. left. reflexivity. Qed.
+
+(* ---------------------------------------------------------------------------------------------
+   directory expansion yields entries under their own names *)
+
+Definition listed (f : fs) (p : path) : Prop :=
+  exists q ents e, f q = Some (NDir ents) /\ In e ents /\ epath e = p /\
+                   epy e = true /\ ehidden e = false /\ epycache e = false.
+
+Lemma dir_entries_some f p ents : dir_entries f p = Some ents -> exists q, f q = Some (NDir ents).
+Proof.
+  unfold dir_entries. destruct (resolve max_hops f p) as [q|]; [|discriminate].
+  destruct (f q) as [[c g|g|t|ents']|] eqn:Hq; try discriminate. intros H; inversion H; subst. eauto.
+Qed.
+
+Local Opaque isfile isdir dir_entries.
+
+Lemma expand_dir_listed : forall k f d p, In p (fst (expand_dir k f d)) -> listed f p /\ isfile f p = true.
+Proof.
+  induction k as [|k IH]; intros f d p Hin; cbn [expand_dir] in Hin; [contradiction|].
+  destruct (dir_entries f d) as [ents|] eqn:Hd; [|contradiction].
+  destruct (dir_entries_some f d ents Hd) as (q & Hq).
+  assert (Hgen : forall l, (forall e, In e l -> In e ents) ->
+            In p (fst (fold_right (fun e acc =>
+                        let r := if ehidden e || epycache e then ([], true)
+                                 else if isfile f (epath e) then ((if epy e then [epath e] else []), true)
+                                 else if isdir f (epath e) then expand_dir k f (epath e)
+                                 else ([], true) in
+                        (fst r ++ fst acc, snd r && snd acc)) ([], true) l)) ->
+            listed f p /\ isfile f p = true).
+  { induction l as [|e l IHl]; intros Hsub Hp; cbn [fold_right fst] in Hp; [contradiction|].
+    apply in_app_or in Hp. destruct Hp as [Hp | Hp].
+    - destruct (ehidden e) eqn:Hh; cbn [orb fst] in Hp; [contradiction|].
+      destruct (epycache e) eqn:Hc; cbn [orb fst] in Hp; [contradiction|].
+      destruct (isfile f (epath e)) eqn:Hf; cbn [fst] in Hp.
+      + destruct (epy e) eqn:Hy; [|contradiction]. destruct Hp as [<- | []].
+        split; [|exact Hf]. exists q, ents, e. repeat split; auto. apply Hsub. left. reflexivity.
+      + destruct (isdir f (epath e)); [|contradiction]. eapply IH; eauto.
+    - apply IHl; auto. intros e' He'. apply Hsub. right. exact He'. }
+  apply (Hgen ents); auto.
+Qed.
+
+Lemma expand_names : forall f args p, In p (fst (expand f args)) -> In (APath p) args \/ listed f p.
+Proof.
+  induction args as [|[a] r IH]; intros p Hin; cbn [expand] in Hin; [contradiction|].
+  destruct (expand f r) as [fl er] eqn:He. cbn [fst] in IH.
+  destruct (isfile f a).
+  - cbn [fst] in Hin. destruct Hin as [<- | Hin]; [left; left; reflexivity|]. destruct (IH p Hin); [left; right|right]; auto.
+  - destruct (isdir f a).
+    + destruct (expand_dir dir_fuel f a) as [ms ok] eqn:Hd. destruct ok; cbn [fst] in Hin.
+      * apply in_app_or in Hin. destruct Hin as [Hin | Hin].
+        -- right. apply (expand_dir_listed dir_fuel f a). now rewrite Hd.
+        -- destruct (IH p Hin); [left; right|right]; auto.
+      * destruct (IH p Hin); [left; right|right]; auto.
+    + cbn [fst] in Hin. destruct (IH p Hin); [left; right|right]; auto.
+Qed.
